@@ -718,18 +718,20 @@ func (vc *FnVC) havocTypes(seen map[string]types.Type) {
 
 // ------------------------------------------------------------------ pure observers
 
+// A single observer version for the whole (unmodelled) world state: two observer
+// calls with no possibly-mutating call in between return the same value for the
+// same receiver and arguments.
 func (vc *FnVC) versionOf(recv string) string {
-	if v, ok := vc.versionCtr[recv]; ok {
+	if v, ok := vc.versionCtr[""]; ok {
 		return v
 	}
 	v := vc.freshConst("ver", "Int")
-	vc.versionCtr[recv] = v
+	vc.versionCtr[""] = v
 	return v
 }
 
 func (vc *FnVC) bumpVersion(recv ssa.Value) {
-	r := vc.val(recv).S
-	vc.versionCtr[r] = vc.freshConst("ver", "Int")
+	vc.versionCtr[""] = vc.freshConst("ver", "Int")
 }
 
 func (vc *FnVC) bumpAllVersions() {
